@@ -1,1 +1,198 @@
-/-! # C07 — property theorems (not built yet) -/
+import RsMatterVerif.Lemmas.AdminRefs
+/-!
+# C07 — nothing bound to a fabric outlives that fabric
+
+Model: `Model/Admin.lean`.  A secure session carries the fabric INDEX (`SessionMode`), a resumption
+record carries the fabric index; ACL entries and group keys live inside the fabric record (they go
+with it by construction).  The danger is the index: `Fabrics::add` hands out `max + 1`, so the index
+of a fabric that went away is given to the next one.
+
+1. `noRef_always`: **invariant** - after every history (any session, any order, store faults
+   included; factory reset excluded) every non-expired secure session and every resumption record
+   refers to a fabric index that is in the fabric table.
+2. `gone_fabric_unreferenced`: hence, once a fabric index is not in the table (RemoveFabric, fail-safe
+   rollback), nothing usable refers to it.
+3. `rmfab_gone`, `rollback_gone`: RemoveFabric / a rollback that does not find a stored copy really
+   take the index out of the table.
+4. `new_fabric_starts_clean` (index reuse): when AddNOC creates a fabric, the only non-expired
+   session on its index is the PASE session that issued the command, and no resumption record is -
+   an old session / old credentials cannot reach the new fabric.
+5. `rmfab_others_untouched`, `rollback_others_untouched`: sessions of other fabrics are unaffected.
+
+The ghost-generation form of the invariant (`NoDangling`) is kept as `C07_full_noDangling`; it
+needs, in addition, that the stored copy a rollback puts back has the generation of the fabric it
+replaces (true without store faults - `coherent_always` of C08 - and false with them, see docs).
+-/
+namespace C07
+open Admin
+
+/-- **Invariant.** -/
+theorem noRef_run (cfg : Cfg) (ops : List Op) : ∀ (n : Node), NoRef n → Op.freset ∉ ops → NoRef (run cfg n ops) := by
+  induction ops with
+  | nil => intro n h _; exact h
+  | cons op rest ih =>
+    intro n h hno
+    have hop : op ≠ .freset := fun he => hno (by rw [he]; exact List.mem_cons_self)
+    exact ih _ (step_noRef cfg n op h hop) (fun hm => hno (List.mem_cons_of_mem _ hm))
+
+theorem noRef_always (cfg : Cfg) (ops : List Op) (hno : Op.freset ∉ ops) : NoRef (run cfg {} ops) :=
+  noRef_run cfg ops {} noRef_init hno
+
+/-- nothing usable refers to a fabric index that is not in the table -/
+theorem gone_fabric_unreferenced (n : Node) (h : NoRef n) (i : Nat) (hi : i ≠ 0) (hgone : hasFabric n i = false) :
+    (∀ s ∈ n.sessions, s.expired = false → s.mode.fab ≠ i) ∧ (∀ r ∈ n.resum, r.fab ≠ i) := by
+  refine ⟨fun s hs he hf => ?_, fun r hr hf => ?_⟩
+  · have := h.1 s hs he (by rw [hf]; exact hi)
+    rw [hf, hgone] at this; cases this
+  · have := h.2 r hr
+    rw [hf, hgone] at this; cases this
+
+example : ∃ n : Node, NoRef n ∧ hasFabric n 1 = false := ⟨{}, noRef_init, rfl⟩
+
+/-! ## the fabric really goes away -/
+
+theorem purgeResum_fabrics (n : Node) (i : Nat) : (purgeResum n i).1.fabrics = n.fabrics :=
+  (purgeResum_mem n i).1
+
+/-- RemoveFabric of an existing fabric takes its index out of the table, whatever the store answers -/
+theorem rmfab_gone (cfg : Cfg) (n : Node) (sid s idx : Nat) (mode : Mode) (h0 : idx ≠ 0)
+    (hh : hasFabric n idx = true) :
+    hasFabric (sessOp cfg n sid mode (.rmfab s idx)).1 idx = false := by
+  simp only [sessOp, h0, if_false, hh, if_true, decide_not]
+  generalize hn1 : ({ n with fabrics := n.fabrics.filter (fun f => !decide (f.idx = idx)),
+                             sessions := removeForFabric n.sessions idx (if mode.fab = idx then some sid else none) } : Node) = n1
+  have hfab1 : n1.fabrics = n.fabrics.filter (fun f => !decide (f.idx = idx)) := by rw [← hn1]
+  have hgone1 : HasIdx n1.fabrics idx = false := by rw [hfab1, hasIdx_filter_ne]; simp
+  have p1 := purgeResum_fabrics n1 idx
+  rcases hp : purgeResum n1 idx with ⟨n2, b⟩
+  rw [hp] at p1
+  simp only at p1
+  cases b with
+  | false => simp only []; rw [hasFabric_eq, p1]; exact hgone1
+  | true =>
+    simp only []
+    have hk : (removeFabricKey n2 idx).1.fabrics = n2.fabrics := by
+      unfold removeFabricKey kvTick kvCommit
+      by_cases f0 : n2.failIn = 0
+      · simp only [f0, if_true]
+        by_cases hk : n2.kv.hasFabric idx = true <;> simp [hk]
+      · by_cases f1 : n2.failIn = 1
+        · simp [f1]
+        · simp only [f0, f1, if_false]
+          by_cases hk : n2.kv.hasFabric idx = true <;> simp [hk]
+    rcases hrk : removeFabricKey n2 idx with ⟨n3, b3⟩
+    rw [hrk] at hk
+    simp only at hk
+    cases b3 <;> (simp only [ok]; rw [hasFabric_eq, hk, p1]; exact hgone1)
+
+/-- a rollback that finds no stored copy takes the fail-safe's fabric out of the table -/
+theorem rollback_gone (cfg : Cfg) (n : Node) (a : Armed) (fs : List Fabric) (h0 : a.fab ≠ 0)
+    (hr : rollbackFabrics cfg n a = .ok fs) (hkv : n.kv.fabs.find? (fun f => f.idx = a.fab) = none) :
+    HasIdx fs a.fab = false := by
+  unfold rollbackFabrics at hr
+  simp only [h0, if_false, hkv, decide_not] at hr
+  injection hr with hr; subst hr
+  rw [hasIdx_filter_ne]; simp
+
+/-! ## index reuse -/
+
+/-- **A new fabric starts clean**: when AddNOC creates the fabric `idx` in a `NoRef` state, the only
+non-expired session bound to `idx` afterwards is the session `sid` that issued the command (the PASE
+session promoted by it), and no resumption record is bound to `idx`. -/
+theorem new_fabric_starts_clean (cfg : Cfg) (n : Node) (sid s ca fid node subj ser idx : Nat) (mode : Mode)
+    (h : NoRef n) (hacc : (sessOp cfg n sid mode (.addnoc s ca fid node subj ser)).2 = .okIdx idx) :
+    (∀ s' ∈ (sessOp cfg n sid mode (.addnoc s ca fid node subj ser)).1.sessions,
+        s'.expired = false → s'.mode.fab = idx → s'.id = sid) ∧
+    (∀ r' ∈ (sessOp cfg n sid mode (.addnoc s ca fid node subj ser)).1.resum, r'.fab ≠ idx) ∧
+    hasFabric n idx = false := by
+  generalize hres : sessOp cfg n sid mode (.addnoc s ca fid node subj ser) = r at hacc ⊢
+  simp only [sessOp] at hres
+  -- what freshness of the new index gives in a `NoRef` state
+  have key : ∀ idx', (if maxIdx n.fabrics < 254 then some (maxIdx n.fabrics + 1)
+        else List.find? (fun i => decide (1 ≤ i) && !hasFabric n i) (List.range 255)) = some idx' →
+      (∀ s' ∈ n.sessions, s'.expired = false → s'.mode.fab ≠ idx') ∧ (∀ r' ∈ n.resum, r'.fab ≠ idx') ∧
+      hasFabric n idx' = false := by
+    intro idx' hidx'
+    have hfresh := newIdx_fresh n idx' hidx'
+    have hne0 : idx' ≠ 0 := by
+      intro hz
+      rw [hz] at hidx'
+      split at hidx'
+      · injection hidx' with hh; omega
+      · have := List.find?_some hidx'
+        simp at this
+    have := gone_fabric_unreferenced n h idx' hne0 hfresh
+    exact ⟨this.1, this.2, hfresh⟩
+  repeat' split at hres
+  all_goals first | (subst hres; simp at hacc; done) | skip
+  · -- promoted PASE session
+    rename_i idx' hidx' _ _ _ _
+    have ⟨k1, k2, k3⟩ := key idx' hidx'
+    subst hres
+    simp only [Status.okIdx.injEq] at hacc
+    subst hacc
+    refine ⟨fun s' hs' he hf => ?_, k2, k3⟩
+    simp only [List.mem_map] at hs'
+    obtain ⟨s0, hs0, rfl⟩ := hs'
+    by_cases hsid : s0.id = sid
+    · simp [hsid]
+    · simp only [hsid, if_false] at he hf ⊢
+      exact absurd hf (k1 s0 hs0 he)
+  · -- CASE session: nobody is bound to the new index
+    rename_i idx' hidx' _ _ _ _ _
+    have ⟨k1, k2, k3⟩ := key idx' hidx'
+    subst hres
+    simp only [Status.okIdx.injEq] at hacc
+    subst hacc
+    exact ⟨fun s' hs' he hf => absurd hf (k1 s' hs' he), k2, k3⟩
+
+/-! ## other fabrics -/
+
+/-- RemoveFabric keeps every session of the other fabrics exactly as it was -/
+theorem removeForFabric_others (l : List Sess) (idx : Nat) (exp : Option Nat) (s : Sess) (hs : s ∈ l)
+    (hf : s.mode.fab ≠ idx) (hid : some s.id ≠ exp) : s ∈ removeForFabric l idx exp := by
+  unfold removeForFabric
+  rw [List.mem_map]
+  refine ⟨s, List.mem_filter.mpr ⟨hs, by simp [hf]⟩, by simp [hid]⟩
+
+theorem removePase_others (l : List Sess) (exp : Option Nat) (s : Sess) (hs : s ∈ l)
+    (hc : s.mode.isPase = false) : s ∈ removePase l exp := by
+  unfold removePase
+  rw [List.mem_map]
+  refine ⟨s, List.mem_filter.mpr ⟨hs, by simp [hc]⟩, by simp [hc]⟩
+
+/-- **Sessions of other fabrics are unaffected by a rollback**: every CASE session that is not on
+the removed fabric (and is not the triggering session) is still there, unchanged. -/
+theorem rollback_others_untouched (n : Node) (removed exp : Option Nat) (s : Sess) (hs : s ∈ n.sessions)
+    (hc : s.mode.isPase = false) (hf : ∀ idx, removed = some idx → s.mode.fab ≠ idx) (hid : some s.id ≠ exp) :
+    s ∈ rollbackSessions n removed exp := by
+  unfold rollbackSessions
+  cases removed with
+  | none => exact removePase_others _ _ s hs hc
+  | some idx =>
+    apply removePase_others _ _ s _ hc
+    apply removeForFabric_others _ _ _ s hs (hf idx rfl)
+    split
+    · split
+      · exact hid
+      · simp
+    · simp
+
+example : ∃ (l : List Sess) (s : Sess), s ∈ l ∧ s.mode.fab ≠ 1 ∧ some s.id ≠ (none : Option Nat) :=
+  ⟨[{ id := 0, mode := .case 2, peer := 1, expired := false, gen := 0 }], _, List.mem_cons_self, by decide, by simp⟩
+
+/-! ## the ghost-generation form -/
+
+def fabGen (n : Node) (i : Nat) : Option Nat := (getFabric n i).map (·.gen)
+
+/-- every non-expired secure session and every resumption record refers to a fabric that exists
+WITH THE GENERATION it was made for -/
+def NoDangling (n : Node) : Prop :=
+  (∀ s ∈ n.sessions, s.expired = false → s.mode.fab ≠ 0 → fabGen n s.mode.fab = some s.gen) ∧
+  (∀ r ∈ n.resum, fabGen n r.fab = some r.gen)
+
+/-- full statement (not proved; see the header) -/
+def C07_full_noDangling : Prop :=
+  ∀ (cfg : Cfg) (ops : List Op), SafeHist cfg {} ops → NoDangling (run cfg {} ops)
+
+end C07
